@@ -100,6 +100,112 @@ def compare(src, back, target, problems):
                 problems.append(("density", f"one_rdms[{key}] density at probe point {p}: {ra[p]!r} -> {rb[p]!r}"))
 
 
+def source_entries(src, v_src, tol_src):
+    """[(values, tolerance, occupation, energy, spin)] - one entry per listed orbital of the object."""
+    mo = src.mo
+    en = mo.energies if mo.energies is not None else np.full(v_src.shape[0], np.nan)
+    if mo.kind == "restricted":
+        return [(v_src[i], tol_src[i], float(mo.occs[i]), float(en[i]), "both") for i in range(v_src.shape[0])]
+    na = mo.norba
+    return [(v_src[i], tol_src[i], float(mo.occs[i]), float(en[i]), "alpha" if i < na else "beta") for i in range(v_src.shape[0])]
+
+
+def denotes(src, target, path, problems, part):
+    """Independent-reader clause: what the written file denotes (ref/wfreaders.py, no iodata reader involved) against the object."""
+    from ref import wfreaders
+
+    with open(path) as fh:
+        text = fh.read()
+    try:
+        if target == "fchk":
+            table = wfreaders.read_fchk(text)
+            xyz, _shells, ca, cb, _nindep = wfreaders.fchk_model(table)
+            bv_file = wfreaders.fchk_basis_at(table, gto.PROBE_POINTS)
+        else:
+            table = wfreaders.read_wfn(text) if target == "wfn" else wfreaders.read_wfx(text)
+            xyz = table["xyz"]
+            v_file = wfreaders.primitive_orbitals_at(table, gto.PROBE_POINTS)
+    except wfreaders.Unsupported as exc:
+        part.outcome("independent-reader", f"{target}:not-judged:{str(exc).split(' ')[0]}")
+        return
+    except Exception as exc:  # noqa: BLE001
+        problems.append(("independent-reader", f"the written file does not follow the {target} layout: {exc!r}"))
+        return
+    if xyz.shape != np.shape(src.atcoords):
+        problems.append(("independent-reader", f"{xyz.shape[0]} nuclei in the file, {len(src.atcoords)} in the object"))
+        return
+    rel, ab = COORD_TOL[target]
+    if np.abs(xyz - src.atcoords).max() > rel * np.abs(src.atcoords).max() + ab:
+        problems.append(("independent-reader", f"coordinates in the file differ by {np.abs(xyz - src.atcoords).max():.3e}"))
+        return
+    bv_src = gto.eval_basis(wfn.printed_basis(src, target), src.obasis.conventions, xyz, gto.PROBE_POINTS)
+    v_src = gto.eval_orbitals(src.mo.coeffs, bv_src)
+    rel, ab = COEFF_TOL[target]
+    tol_src = (rel * np.abs(src.mo.coeffs).T + ab) @ np.abs(bv_src) + 1e-13
+    entries = source_entries(src, v_src, tol_src)
+    if target == "fchk":
+        # orbitals are listed in order, alpha then beta; occupations are implied by the electron counts (aufbau)
+        mo = src.mo
+        na = mo.norba
+        fa = ca @ bv_file
+        fb = cb @ bv_file if cb is not None else None
+        sa = v_src[:na]
+        sb = v_src[na:] if mo.kind == "unrestricted" else v_src
+        ta = tol_src[:na]
+        tb = tol_src[na:] if mo.kind == "unrestricted" else tol_src
+        for label, f, s_, t_ in (("alpha", fa, sa, ta), ("beta", fb if fb is not None else fa, sb, tb)):
+            if f.shape != s_.shape:
+                problems.append(("independent-reader", f"{label}: {f.shape[0]} orbitals in the file, {s_.shape[0]} in the object"))
+            elif (np.abs(f - s_) > t_).any():
+                i, p = np.unravel_index((np.abs(f - s_) - t_).argmax(), f.shape)
+                problems.append(("independent-reader", f"{label} orbital {i} at probe point {p}: the object has {s_[i, p]!r}, the file denotes {f[i, p]!r}"))
+        nel = (table.get("Number of alpha electrons"), table.get("Number of beta electrons"))
+        want = (float(np.sum(mo.occsa)), float(np.sum(mo.occsb)))
+        if abs(nel[0] - want[0]) > 1e-6 or abs(nel[1] - want[1]) > 1e-6:
+            problems.append(("independent-reader", f"electron counts in the file {nel}, occupations of the object sum to {want}"))
+        for key, lab in (("scf", "Total SCF Density"), ("scf_spin", "Spin SCF Density")):
+            if key in src.one_rdms and lab in table:
+                dm = np.asarray(src.one_rdms[key])
+                df = wfreaders.untril(table[lab], bv_file.shape[0])
+                ra, rb = gto.density(dm, bv_src), gto.density(df, bv_file)
+                tol = 2e-8 * np.einsum("ab,ap,bp->p", np.abs(dm), np.abs(bv_src), np.abs(bv_src)) + 1e-13
+                if (np.abs(ra - rb) > tol).any():
+                    p = int((np.abs(ra - rb) - tol).argmax())
+                    problems.append(("independent-reader", f"{lab} at probe point {p}: the object has {ra[p]!r}, the file denotes {rb[p]!r}"))
+        part.outcome("independent-reader", f"{target}:judged")
+        return
+    # WFN / WFX: every listed orbital must be an orbital of the object; occupation per spatial function must agree
+    spins = table.get("spins")
+    clusters = []  # [representative values, tolerance, [source entries], [file entries]]
+    for e in entries:
+        for c in clusters:
+            if (np.abs(c[0] - e[0]) <= c[1] + e[1]).all():
+                c[2].append(e)
+                break
+        else:
+            clusters.append([e[0], e[1], [e], []])
+    r_e, a_e = ENERGY_TOL[target]
+    r_o, a_o = OCC_TOL[target]
+    for i, (num, occ, en, _coefs) in enumerate(table["mos"]):
+        for c in clusters:
+            if (np.abs(c[0] - v_file[i]) <= c[1]).all():
+                c[3].append((occ, en, spins[i] if spins else None))
+                if not any(np.isnan(e[3]) or abs(e[3] - en) <= r_e * abs(e[3]) + a_e + 1e-15 for e in c[2]):
+                    problems.append(("independent-reader", f"orbital {num} of the file has energy {en!r}, the matching orbitals of the object have {[e[3] for e in c[2]]}"))
+                break
+        else:
+            problems.append(("independent-reader", f"orbital {num} of the file (occupation {occ}) is not an orbital of the object: values at the probe points {v_file[i][:3].tolist()}..."))
+    for c in clusters:
+        so, fo = sum(e[2] for e in c[2]), sum(f[0] for f in c[3])
+        if abs(so - fo) > (r_o * max(1.0, abs(so)) + a_o) * max(1, len(c[3])) + 1e-12:
+            problems.append(("independent-reader", f"a spatial orbital of the object carries {so} electrons, the file gives it {fo} ({len(c[3])} listed orbitals)"))
+        elif spins and src.mo.kind == "unrestricted" and all(f[2] in ("alpha", "beta") for f in c[3]):
+            sa_, fa_ = sum(e[2] for e in c[2] if e[4] == "alpha"), sum(f[0] for f in c[3] if f[2] == "alpha")
+            if abs(sa_ - fa_) > (r_o * max(1.0, abs(sa_)) + a_o) * max(1, len(c[3])) + 1e-12:
+                problems.append(("independent-reader", f"alpha occupation of a spatial orbital: object {sa_}, file {fa_}"))
+    part.outcome("independent-reader", f"{target}:judged")
+
+
 def run_case(part, src, target, allow, info, tmp, tag):
     from iodata import dump_one, load_one
     from iodata.utils import PrepareDumpWarning
@@ -125,6 +231,11 @@ def run_case(part, src, target, allow, info, tmp, tag):
             problems.append(("announced", f"returned object {'differs from' if out is not src else 'is'} the argument but PrepareDumpWarning issued={warned}"))
     elif out is not src:
         problems.append(("announced", "allow_changes=False but a different object was written"))
+    if target in ("fchk", "wfn", "wfx"):
+        try:
+            denotes(src, target, path, problems, part)
+        except Exception as exc:  # noqa: BLE001
+            raise RuntimeError(f"independent reader failed on {info}: {exc!r}") from exc
     with warnings.catch_warnings():
         warnings.simplefilter("ignore")
         try:
